@@ -1,0 +1,34 @@
+//go:build verif
+
+package secp256k1
+
+import "gitlab.com/yawning/secp256k1-voi/internal/field"
+
+// Verification-only exports (build tag `verif`).  Not part of the API.
+
+// VerifRescale multiplies the projective coordinates (X, Y, Z) of `p`
+// by `lambda`, which changes the representative but not the abstract
+// point.  It returns false (and leaves `p` alone) iff `p` is not
+// initialized, or `lambda` is not a canonical non-zero field element.
+func VerifRescale(p *Point, lambda *[32]byte) bool {
+	if !p.isValid {
+		return false
+	}
+	l, err := field.NewElementFromCanonicalBytes(lambda)
+	if err != nil || l.IsZero() != 0 {
+		return false
+	}
+	p.x.Multiply(&p.x, l)
+	p.y.Multiply(&p.y, l)
+	p.z.Multiply(&p.z, l)
+	return true
+}
+
+// VerifRawCoords returns the raw projective coordinates and the validity
+// flag of `p`, without any validity assertion.
+func VerifRawCoords(p *Point) (x, y, z [32]byte, isValid bool) {
+	copy(x[:], p.x.Bytes())
+	copy(y[:], p.y.Bytes())
+	copy(z[:], p.z.Bytes())
+	return x, y, z, p.isValid
+}
